@@ -25,6 +25,7 @@ ALL_CONFIGS = [dict(simplify=s, optimize=o, cache=c, stats=st, maxprocs=m)
                for s in (True, False) for o in (True, False) for c in (False, True) for st in (None, 'log') for m in (1, 2)]
 SERIAL_CONFIGS = [c for c in ALL_CONFIGS if c['maxprocs'] == 1]
 PRINCIPAL = [c for c in ALL_CONFIGS if c['maxprocs'] == 1 and not c['cache'] and c['stats'] is None]
+PAR_DEFAULT = [c for c in ALL_CONFIGS if c['maxprocs'] == 2 and c['simplify'] and c['optimize'] and c['stats'] is None]
 
 TERM_PROFILES = {
     'quick': [{'name': 'd2-f5', 'leaves': 'f5', 'consts': False, 'ops': 'all', 'depth': 2},
@@ -32,7 +33,7 @@ TERM_PROFILES = {
     'thorough': [{'name': 'd2-all', 'leaves': 'all', 'consts': True, 'ops': 'all', 'depth': 2}],
 }
 NPARTS = {'quick': {1: 2, 2: 40}, 'thorough': {1: 4, 2: 300}}
-LOOP_CHUNK = 40
+LOOP_CHUNK = 30
 
 
 def shards(tier, seed):
@@ -175,7 +176,10 @@ def run_shard(spec, tier, seed):
     if spec['kind'] == 'loops':
         progs = LS.programs(tier)[spec['lo']:spec['hi']]
         for fam, prog in progs:
-            _one(prog, ALL_CONFIGS, res, fam)
+            # all 16 serial configurations for every program; forking configurations (maxprocs=2, ~0.1 s per call): all of them for
+            # nested loops, tuples and loop-dependent shapes, the two default-pass ones for the rest (schedules are C16's subject)
+            full = fam in ('p4', 'tuples') or 'ragged' in LS.show(prog)
+            _one(prog, ALL_CONFIGS if full else SERIAL_CONFIGS + PAR_DEFAULT, res, fam)
         res.sample({'loop_program': LS.show(progs[0][1]), 'family': progs[0][0], 'configs': len(ALL_CONFIGS)})
     elif spec['kind'] == 'derivs':
         for fam, term in XS.terms(tier)[spec['lo']:spec['hi']]:
